@@ -13,6 +13,7 @@ CONSTANTS
   PerturbMode = "pure"
   HashMode = "set_order"
   SFSMode = "copies"
+  KernelMode = "stateless"
   MaxTable = 60
 SPECIFICATION Spec
 CHECK_DEADLOCK FALSE
